@@ -374,7 +374,7 @@ func expandSchemaRef(target Schema, parentRefs []string, resolver *schemaLoader,
 		return nil, err
 	}
 
-	if t == nil {
+	if t == nil || err != nil {
 		// guard for when continuing on error
 		return &target, nil
 	}
